@@ -27,6 +27,7 @@ def run(ctx):
     R.rule_w1(ctx)
     n1(ctx, ["geometry_tools/representation.py"])
     CA.rule_c2(ctx, "Representation")
+    R.rule_zs1(ctx)
     u1(ctx, ENTRIES, min_functions=30)
     ctx.r.assume("the homomorphism law over all words and matrices, free "
                  "reduction and the Fox fundamental formula are numerical / "
